@@ -2161,5 +2161,8 @@ func CopyQuery(query *Query) *Query {
 		orderByDefinition: query.orderByDefinition,
 		options:           query.options,
 		postProcessors:    query.postProcessors,
+		// a copy evaluates a part of the same query: ONCE and GLOBAL calls are
+		// made once for all of it
+		singletonExecutions: query.singletonExecutions,
 	}
 }
